@@ -180,10 +180,80 @@ fn compare_state(rep: &mut Report, tol_: &Tol, tag: &str, idx: u64, step: usize,
     ok
 }
 
+/// The trackers run this filter with the weights they were configured with: a single well separated object is fed to
+/// Sort / BatchSort / VisualSort instances with random Kalman weights (many instances with different weights live in one
+/// process) and the estimated box of every record is compared with the free-running f64 reference for those weights.
+fn tracker_section(cli: &Cli, rep: &mut Report) {
+    use vh::trk::*;
+    let n = cli.cases(400, 6000);
+    for k in cli.index_range(n) {
+        if k >> 40 != 0 {
+            continue;
+        }
+        let idx = (7u64 << 40) | k;
+        let mut rng = Rng::for_case(cli.seed, cli.shard, idx);
+        let kind = *rng.pick(&[Kind::Sort, Kind::Sort, Kind::BatchSort, Kind::Visual]);
+        let mut cfg = gen_cfg(&mut rng, kind);
+        cfg.wp = ((1.0 / 20.0) * rng.log_uniform(0.3, 3.0)) as f32;
+        cfg.wv = ((1.0 / 160.0) * rng.log_uniform(0.3, 3.0)) as f32;
+        cfg.constraints = None;
+        cfg.max_idle = 2;
+        cfg.pos = PosMetric::IoU(0.1);
+        let (wp, wv) = (cfg.wp as f64, cfg.wv as f64);
+        let scene = *rng.pick(&[0u64, 0, 5]);
+        let mut trk = AnyTracker::new(&cfg);
+        let h0 = rng.log_uniform(10.0, 300.0);
+        let (mut x, mut y) = (rng.uniform(0.0, 2000.0), rng.uniform(0.0, 2000.0));
+        let (vx, vy) = (rng.uniform(-0.15, 0.15) * h0, rng.uniform(-0.15, 0.15) * h0);
+        let angle = if rng.chance(0.3) { Some(rng.uniform(0.1, 3.0) as f32) } else { None };
+        let asp = rng.uniform(0.5, 2.0) as f32;
+        let mut kf = RefKf::new(5);
+        let frames = 6 + rng.usize(20);
+        let mut first_id = None;
+        rep.count("tracker_histories");
+        for f in 0..frames {
+            x += vx;
+            y += vy;
+            let b = DBox { xc: x as f32, yc: y as f32, angle, aspect: asp, h: (h0 * rng.uniform(0.995, 1.005)) as f32, conf: 1.0 };
+            let det = Det { b, custom: None, feature: None, quality: None, truth: 0 };
+            let recs = trk.predict(scene, &[det]);
+            if recs.len() != 1 {
+                break;
+            }
+            let z = vec![b.xc as f64, b.yc as f64, b.angle.unwrap_or(0.0) as f64, b.aspect as f64, b.h as f64];
+            if f == 0 {
+                first_id = Some(recs[0].id);
+                let (i0, _, _) = box_stds(wp, wv, z[4]);
+                kf.init(&z, &i0);
+            } else if Some(recs[0].id) != first_id || recs[0].length != f + 1 {
+                // the object lost its track (not this section's business)
+                rep.count("tracker_histories_cut_short(track not continued)");
+                break;
+            }
+            let (_, q, _) = box_stds(wp, wv, kf.x.at(4, 0));
+            kf.predict(&q);
+            let (_, _, r) = box_stds(wp, wv, kf.x.at(4, 0));
+            kf.update(&z, &r);
+            let est = &recs[0].predicted;
+            let lib = [est.xc as f64, est.yc as f64, est.angle.unwrap_or(0.0) as f64, est.aspect as f64, est.h as f64];
+            for i in 0..5 {
+                let want = kf.x.at(i, 0);
+                let tol = 5e-3 * kf.p.at(i, i).max(0.0).sqrt() + 1e-4 * want.abs().max(1.0);
+                rep.max("tracker_estimate_err_over_tol", (lib[i] - want).abs() / tol);
+                if !((lib[i] - want).abs() <= tol) {
+                    rep.violation(&format!("C07/tracker/{:?}/estimated-box-differs-from-filter-with-configured-weights", kind), idx, json!({"cfg": cfg.js(), "frame": f, "component": i, "tracker": lib[i], "reference": want, "tolerance": tol, "wp": wp, "wv": wv}));
+                    return;
+                }
+            }
+            rep.count("tracker_estimates_compared");
+        }
+    }
+}
+
 fn main() {
     let cli = Cli::parse();
     let mut rep = Report::new("C07", &cli);
-    rep.note("rule", json!("case = trajectory of 50..600 steps (constant velocity / accelerating / jittering / stop-and-go, growing/shrinking, rotating; coordinates 1..1e4, heights 1..1e3, weights 0.5x..2x the defaults) with a random predict/update pattern (gaps of several predicts; a sixth of the trajectories contain one coasting episode of 60..320 predictions without update followed by a displaced re-appearance). A textbook f64 Kalman filter with full F,H,Q(h),R(h) and gain by full matrix inverse runs in lock-step on the same f32 inputs. After every step two comparisons: (a) one-step differential - the reference is restarted from the library's own previous state (read through the guarded accessor) and must reproduce the library's next state: mean within 1e-3 sigma + 32 ulp_f32, every covariance entry within 5e-6 of the (previous) variance scale; (b) a free-running lock-step reference is run alongside for information only (its deviation maxima are reported; f32 error accumulates with the P/R conditioning over predict-only gaps); the scaled asymmetry is reported for information (the asymmetric part is judged entry by entry by the one-step comparison), positive-definiteness (min eigenvalue of the diagonally scaled matrix > 1e-4), cross-block zeros; distance() vs f64 squared Mahalanobis distance of the library's own state (2e-3 relative); stationary target; vector filter == per-point filters bit for bit; calculate_cost: inverted == 100 - direct on a grid of 1e4 distances incl. both gates +-1ulp for the box and the point filter. Non-trivial: every trajectory with >= 10 updates (distinct by input hash)."));
+    rep.note("rule", json!("case = trajectory of 50..600 steps (constant velocity / accelerating / jittering / stop-and-go, growing/shrinking, rotating; coordinates 1..1e4, heights 1..1e3, weights 0.5x..2x the defaults) with a random predict/update pattern (gaps of several predicts; a sixth of the trajectories contain one coasting episode of 60..320 predictions without update followed by a displaced re-appearance). A textbook f64 Kalman filter with full F,H,Q(h),R(h) and gain by full matrix inverse runs in lock-step on the same f32 inputs. After every step two comparisons: (a) one-step differential - the reference is restarted from the library's own previous state (read through the guarded accessor) and must reproduce the library's next state: mean within 1e-3 sigma + 32 ulp_f32, every covariance entry within 5e-6 of the (previous) variance scale; (b) a free-running lock-step reference is run alongside for information only (its deviation maxima are reported; f32 error accumulates with the P/R conditioning over predict-only gaps); the scaled asymmetry is reported for information (the asymmetric part is judged entry by entry by the one-step comparison), positive-definiteness (min eigenvalue of the diagonally scaled matrix > 1e-4), cross-block zeros; distance() vs f64 squared Mahalanobis distance of the library's own state (2e-3 relative); stationary target; vector filter == per-point filters bit for bit; calculate_cost: inverted == 100 - direct on a grid of 1e4 distances incl. both gates +-1ulp for the box and the point filter. A tracker section feeds one object to Sort / BatchSort / VisualSort instances with random Kalman weights and compares the estimated box of every record with the free-running reference for the configured weights. Non-trivial: every trajectory with >= 10 updates (distinct by input hash)."));
     rep.note("assumptions", json!(["noise model as documented in the source: std = w*h (xc,yc,angle,h), constants for aspect; point filter unscaled", "tolerances carry >=10x head-room over the largest deviation observed on the pinned tree (see observed_maxima *_over_tol)"]));
     let n = cli.cases(6000, 40_000);
     for idx in cli.index_range(n) {
@@ -497,6 +567,9 @@ fn main() {
         if !gate_pt.is_empty() {
             rep.violation("C07/point/cost-inverted-inconsistent", 0, json!({"first_distances": &gate_pt[..gate_pt.len().min(5)], "count": gate_pt.len(), "example": {"d": gate_pt[0], "direct": Point2DKalmanFilter::calculate_cost(gate_pt[0], false), "inverted": Point2DKalmanFilter::calculate_cost(gate_pt[0], true)}}));
         }
+    }
+    if !cli.small {
+        tracker_section(&cli, &mut rep);
     }
     rep.finish();
 }
